@@ -35,6 +35,19 @@ FUNCS = {"exp": "exp", "log": "log", "sqrt": "sqrt", "sin": "sin", "cos": "cos",
          # the C printer emits the integer abs() for arguments sympy knows to be integer valued (e.g. floor(x));
          # on such values it agrees with fabs
          "abs": "abs"}
+_ONE, _TWO, _TEN, _FOUR = (["n", str(k), "1", 0] for k in (1, 2, 10, 4))
+_E = ["fn", "exp", _ONE]
+# the math.h constants sympy's C printer substitutes (C89CodePrinter.math_macros); each is the double nearest
+# to the value, which the expression on the right reproduces to within an ulp
+MACROS = {
+    "M_PI": ["pi"], "M_E": _E,
+    "M_PI_2": ["/", ["pi"], _TWO], "M_PI_4": ["/", ["pi"], _FOUR],
+    "M_1_PI": ["/", _ONE, ["pi"]], "M_2_PI": ["/", _TWO, ["pi"]],
+    "M_2_SQRTPI": ["/", _TWO, ["fn", "sqrt", ["pi"]]],
+    "M_SQRT2": ["fn", "sqrt", _TWO], "M_SQRT1_2": ["/", _ONE, ["fn", "sqrt", _TWO]],
+    "M_LN2": ["fn", "log", _TWO], "M_LN10": ["fn", "log", _TEN],
+    "M_LOG2E": ["/", _ONE, ["fn", "log", _TWO]], "M_LOG10E": ["/", _ONE, ["fn", "log", _TEN]],
+}
 BINPREC = {"||": 1, "&&": 2, "==": 3, "!=": 3, "<": 4, ">": 4, "<=": 4, ">=": 4, "+": 5, "-": 5, "*": 6, "/": 6}
 REL = {"<": "lt", ">": "gt", "<=": "le", ">=": "ge", "==": "eq", "!=": "ne"}
 
@@ -124,10 +137,8 @@ class P:
                 if v in FUNCS and len(args) == 1:
                     return ["fn", FUNCS[v], args[0]]
                 raise CParseError("call " + v)
-            if v == "M_PI":
-                return ["pi"]
-            if v == "M_E":
-                return ["fn", "exp", ["n", "1", "1", 1]]
+            if v in MACROS:
+                return MACROS[v]
             return ["v", v]
         raise CParseError(f"primary {k} {v}")
 
